@@ -2,6 +2,7 @@
 import glob, hashlib, json, os, re, shutil, subprocess
 import runner as R
 from runner import Inv, Merged
+from checks.C15 import tsan_reports
 
 ID = "C17"
 MANIFEST = (
@@ -170,6 +171,16 @@ def run(tier, seed, t0):
     for p in glob.glob(os.path.join(wd, "m*.vtk")) + glob.glob(os.path.join(wd, "m*.xml")):
         os.unlink(p)
 
+    # files of 300-4000 cells that are all refused, initialised by 8 threads, each started several times; the same under ThreadSanitizer
+    nmany = T(tier, 10, 300)
+    R.run_inv(Inv("startup_many", nmany, "plain", args=["--repeats=%d" % T(tier, 6, 10)], threads=8, shards=2, first=9000000, timeout=T(tier, 1500, 6 * 3600), tag="startup_many/plain/t8"), seed, wd, m)
+    tenv = {"TSAN_OPTIONS": "halt_on_error=0:exitcode=0:log_path=%s:history_size=4:external_symbolizer_path=%s" % (os.path.join(wd, "tsan"), R.SYMBOLIZER)}
+    R.run_inv(Inv("startup_many", T(tier, 2, 20), "tsan", args=["--repeats=2"], threads=8, shards=1, first=9100000, timeout=T(tier, 1500, 6 * 3600), env=tenv, tag="startup_many/tsan/t8"), seed, wd, m)
+    reps, total_reports, norepo = tsan_reports(wd, R.builder.repo_dir())
+    m.add_bins({"tsan_reports_total": total_reports})
+    for key, (cnt, sample) in sorted(reps.items()):
+        m.violations.append({"key": "many_refused_cells." + key, "msg": "%d reports, first:\n%s" % (cnt, sample), "obs": {"reports": cnt}, "inv": "tsan",
+                             "replay": {"custom": True, "flavour": "tsan", "argv": ["python3", "check.py", "C17", "--tier", tier, "--seed", str(seed)], "note": "race reports vary from run to run: re-run the check"}})
     b = m.bins
     applied = {o: b.get("op:enum:" + o, 0) for o in ALL_OPS}
     outc = lambda grp, o: b.get("outcome:%s:%s" % (grp, o), 0)
@@ -177,6 +188,7 @@ def run(tier, seed, t0):
     trunc = sum(v for k, v in b.items() if k.startswith("trunc_offsets:"))
     floors = {
         "enumerated_mutants_executed": (enum_done, n_enum),
+        "startups_on_files_whose_cells_are_all_refused": (b.get("many_refused_cells_startups", 0), 5 * nmany),
         "operators_applied_of_%d" % len(ALL_OPS): (sum(1 for o in ALL_OPS if applied[o] > 0), len(ALL_OPS)),
         "min_applications_per_operator": (min(applied.values()), nb),
         "truncation_offsets_covered": (trunc, sum(info["vtk_bytes"]) + sum(info["xml_bytes"])),
